@@ -223,6 +223,19 @@ ADDED7 = {
 for _k, _v in ADDED7.items():
     CLAIMED[_k]['text'] += ' Round 6: ' + _v
 
+ADDED8 = {
+ 'C06': 'S2: "stored back unchanged" means a plain copy of the location (followed through what callees return) - a re-converted value is a change; S5: no write of a setter is skipped on a comparison of the argument with a value derived from stored state.',
+ 'C07': 'T1: every read that yields the crates a query returns is the read of the relation carrying its meaning; T19: no remembered ids or rows in handle, table and context classes (N1 of C10).',
+ 'C08': 'K11: no DELETE / UPDATE selects its rows by LIKE / GLOB against a bound or computed pattern; K12: no handler on a membership operation swallows an SQL error or a type thrown in place of one (A4 of C14).',
+ 'C09': 'P5 also judges statements over several tables: an inner join drops chain rows like a predicate.',
+ 'C10': 'N8: only the transaction guard class issues transaction-control statements.',
+ 'C11': 'W16: no co-update write is skipped on a comparison with a value derived from stored state; W17 = K11; W2: the extension is taken from the file name (the dot-helper cuts at the last slash itself, or every caller passes the result of such a cut).',
+ 'C14': 'A4: a type that a handler throws in place of an SQL error carries SQL failures; A10 = C10-N8.',
+ 'C18': 'B17: no write of a table mutator is skipped on a comparison of the argument with a value a getter computed from the stored row (update() returning early when get(id) == row).',
+}
+for _k, _v in ADDED8.items():
+    CLAIMED[_k]['text'] += ' Round 7: ' + _v
+
 NOT_APPLICABLE = {
  'C19': 'numerical result of integer/floating arithmetic over all inputs (ceiling division, quantisation, minimality, monotonicity): no structural clause beyond the division guard, which C15-U6 covers; a sound decision needs an arithmetic solver or proof (different family)',
  'C20': 'floating-point numerical behaviour of beat-grid extrapolation (bracketing, tempo preservation, idempotence up to rounding); only the iterator arithmetic is shape-visible and is covered by C15-U3',
